@@ -17,6 +17,7 @@ import Aqv.Lemmas.FeedExec
 import Aqv.Model.FeedMu
 import Aqv.Lemmas.ScopeInv
 import Aqv.Lemmas.MuxInvB
+import Aqv.Model.FeedUser
 namespace Aqv.Props.C19
 open Aqv.Feed
 
@@ -523,6 +524,79 @@ theorem mux_inplace_delete_witness :
        .postRet 9 true] := by rfl
   rw [htr]
   refine ⟨by decide, by decide, by decide, by decide, by decide, by rfl⟩
+
+/-! ### A feed USER that sends while holding its own mutex (Aqv.Model.FeedUser; core/tx_pool.go `add()` under `pool.mu`, with a
+subscriber that calls `pool.Stats()` between receives).  Because Send waits for every subscriber (that is C19), the user must
+not wait for the Send while it holds the lock: with the Send spawned (`go pool.txFeed.Send`, the code as written) no reachable
+state is a deadlock; with a synchronous Send two announcements in one critical section deadlock. -/
+
+def _root_.Aqv.FeedUser.UPc.isLocked : FeedUser.UPc → Bool
+  | .locked _ => true
+  | _ => false
+
+theorem feed_user_lock_invariant {sync : Bool} {s : FeedUser.St} (h : FeedUser.Reach sync s) :
+    (s.mu = .user ↔ s.upc.isLocked = true) ∧ (s.mu = .sub ↔ s.spc = .inStats) := by
+  induction h with
+  | init => simp [FeedUser.start, FeedUser.UPc.isLocked]
+  | step a _ hs ih =>
+    obtain ⟨h1, h2⟩ := ih
+    cases a <;> simp only [FeedUser.step] at hs <;> (repeat' split at hs) <;> (try cases hs) <;>
+      simp_all [FeedUser.UPc.isLocked]
+
+/-- with the Send spawned, every reachable state either can take a step or is final (all calls returned, every event
+    received): the user and its lock-taking subscriber never deadlock, for any number of announcements per critical section. -/
+theorem feed_user_async_send_never_deadlocks {s : FeedUser.St} (h : FeedUser.Reach false s) :
+    FeedUser.Enabled false s ∨ FeedUser.Final s := by
+  obtain ⟨h1, h2⟩ := feed_user_lock_invariant h
+  cases hu : s.upc with
+  | locked k =>
+    left
+    cases k with
+    | zero => exact ⟨.userUnlock, _, by simp [FeedUser.step, hu]; rfl⟩
+    | succ k => exact ⟨.userEmit, _, by simp [FeedUser.step, hu]; rfl⟩
+  | idle =>
+    cases hs : s.spc with
+    | inStats => left; exact ⟨.subUnlock, _, by simp [FeedUser.step, hs]; rfl⟩
+    | wantMu =>
+      left
+      have hm : s.mu = .free := by
+        cases hmu : s.mu <;> simp_all [FeedUser.UPc.isLocked]
+      exact ⟨.subLock, _, by simp [FeedUser.step, hs, hm]; rfl⟩
+    | recv =>
+      by_cases hp : 0 < s.pending
+      · left; exact ⟨.asyncDeliver, _, by simp [FeedUser.step, hs, hp]; rfl⟩
+      · right; exact ⟨Or.inr hu, by omega, hs⟩
+  | done =>
+    cases hs : s.spc with
+    | inStats => left; exact ⟨.subUnlock, _, by simp [FeedUser.step, hs]; rfl⟩
+    | wantMu =>
+      left
+      have hm : s.mu = .free := by
+        cases hmu : s.mu <;> simp_all [FeedUser.UPc.isLocked]
+      exact ⟨.subLock, _, by simp [FeedUser.step, hs, hm]; rfl⟩
+    | recv =>
+      by_cases hp : 0 < s.pending
+      · left; exact ⟨.asyncDeliver, _, by simp [FeedUser.step, hs, hp]; rfl⟩
+      · right; exact ⟨Or.inl hu, by omega, hs⟩
+
+/-- WITNESS (seeded shape C19-8): with a synchronous Send, a critical section that announces two events deadlocks — after the
+    first rendezvous the subscriber waits for the mutex in `Stats()`, the user waits in `Send` for the subscriber's next
+    receive; no step is enabled and nothing is final. -/
+theorem feed_user_sync_send_deadlock_witness :
+    ∃ s, FeedUser.Reach true s ∧ ¬ FeedUser.Enabled true s ∧ ¬ FeedUser.Final s := by
+  let s1 : FeedUser.St := { mu := .user, upc := .locked 2, spc := .recv, pending := 0, delivered := 0 }
+  let s2 : FeedUser.St := { mu := .user, upc := .locked 1, spc := .wantMu, pending := 0, delivered := 1 }
+  have r1 : FeedUser.Reach true s1 := FeedUser.Reach.step (.userLock 2) FeedUser.Reach.init (by rfl)
+  have r2 : FeedUser.Reach true s2 := FeedUser.Reach.step .userEmit r1 (by rfl)
+  refine ⟨s2, r2, ?_, ?_⟩
+  · rintro ⟨a, s', hs⟩
+    cases a <;> simp [FeedUser.step, s2] at hs
+  · rintro ⟨h1, _, _⟩
+    rcases h1 with h1 | h1 <;> simp [s2] at h1
+
+-- a single synchronous announcement per critical section does not deadlock (why the seeded change passes every existing test)
+example : FeedUser.step true { mu := .user, upc := .locked 1, spc := .recv, pending := 0, delivered := 0 } .userEmit =
+    some { mu := .user, upc := .locked 0, spc := .wantMu, pending := 0, delivered := 1 } := by rfl
 
 /-! ### Non-vacuity of the fairness assumptions: the `demo` interleaving (a Send blocked in Select on a subscriber that is
 unsubscribed under it, then a second Send), continued until every receiver is waiting again and then idle forever, is a
